@@ -75,6 +75,13 @@ def run(tier):
             {"act": "GLoad", "kind": "sub"}, {"act": "GEnqueue"}, {"act": "Callback"}, {"act": "Emit"},
             {"act": "GLoad", "kind": kind}, {"act": "GEnqueue"}, {"act": "Change", "r": 20}, {"act": "Callback"}, {"act": "Emit"}, {"act": "Emit"}]})
     # a track whose handle has been dropped but which lives on (a nested track keeps it) is still told about a change
+    # ... and the other order: change (with and without a callback after it), then add - for each kind
+    for kind in kinds:
+        for cb_between in (True, False):
+            scen.append({"mode": "rates", "rate0": 8, "src": "sequential-change-then-" + kind, "steps": [
+                {"act": "GLoad", "kind": "sub"}, {"act": "GEnqueue"}, {"act": "Callback"}, {"act": "Emit"}, {"act": "Change", "r": 20}]
+                + ([{"act": "Callback"}, {"act": "Emit"}] if cb_between else [])
+                + [{"act": "GLoad", "kind": kind}, {"act": "GEnqueue"}, {"act": "Callback"}, {"act": "Emit"}, {"act": "Emit"}]})
     scen.append({"mode": "rates", "rate0": 8, "src": "sequential-dropped-parent", "steps": [
         {"act": "GLoad", "kind": "sub"}, {"act": "GEnqueue"}, {"act": "GLoad", "kind": "nested"}, {"act": "GEnqueue"},
         {"act": "Callback"}, {"act": "Emit"}, {"act": "Emit"}, {"act": "DropParent"}, {"act": "Callback"}, {"act": "Emit"}, {"act": "Emit"},
@@ -87,6 +94,9 @@ def run(tier):
     # an echo in flight across the change: the impulse 200 ms before the switch, its echo (500 ms) due 300 ms after it
     for r1, r2 in ((8, 20), (20, 8), (40, 10), (10, 40)):
         scen.append({"mode": "measure", "what": "echo", "rates": [r1, r2], "switch_ms": 1000, "impulse_ms": 800, "src": "grid-echo-in-flight"})
+    # the reverb's first reflection (25.3 ms), at audio rates and across a change
+    for rr in ([44100], [48000], [22050], [96000], [44100, 48000], [48000, 22050]):
+        scen.append({"mode": "measure", "what": "reverb", "rates": rr, "switch_ms": 100, "unit": 1000000, "cbf": 64, "limit": 1500, "src": "grid-reverb"})
     # a sound whose own sample rate is far above the device's (12, 24 and 9.6 source frames per output frame)
     for rr, sr in (([8], 96), ([8], 192), ([10], 96), ([8, 20], 192), ([20, 8], 96)):
         scen.append({"mode": "measure", "what": "sound", "rates": rr, "src_rate": sr, "switch_ms": 1000, "src": "grid-fast-source"})
